@@ -4,6 +4,7 @@ import (
 	"fmt"
 	"go/ast"
 	"go/types"
+	"math/big"
 	"runtime/debug"
 	"strings"
 )
@@ -22,12 +23,29 @@ type UnitResult struct {
 }
 
 // verifyUnit generates the obligations of one function under contract.
-func verifyUnit(p *Prog, fi *FuncInfo) (res *UnitResult) {
+// verifyUnits verifies a function, once per value of its split expression when it has one.
+func verifyUnits(p *Prog, fi *FuncInfo) []*UnitResult {
+	if fi.SplitExpr == nil {
+		return []*UnitResult{verifyUnit(p, fi, nil)}
+	}
+	var out []*UnitResult
+	for k := fi.SplitLo; k <= fi.SplitHi; k++ {
+		kk := k
+		out = append(out, verifyUnit(p, fi, &kk))
+	}
+	return out
+}
+
+func verifyUnit(p *Prog, fi *FuncInfo, split *int64) (res *UnitResult) {
+	knownLits = map[*Term]*big.Int{}
 	x := newExec(p, fi)
+	if split != nil {
+		x.nameSuffix = fmt.Sprintf("[%d]", *split)
+	}
 	x.extUsed = map[string]int{}
 	x.zeroLinks = map[string]func(r *Term) *Term{}
 	x.unfolded = map[*Term]bool{}
-	res = &UnitResult{Func: fi.Name(), File: p.relPos(fi.Decl)}
+	res = &UnitResult{Func: fi.Name() + x.nameSuffix, File: p.relPos(fi.Decl)}
 	if fi.Contract != nil {
 		res.Serves = fi.Contract.Serves
 	}
@@ -79,15 +97,17 @@ func verifyUnit(p *Prog, fi *FuncInfo) (res *UnitResult) {
 			st.assume(Neq(x.readPlace(st, x.varPlace(st, sig.Recv())), IntLit(0)))
 		}
 	}
+	if split != nil {
+		x.spec++
+		t := x.eval(st.clone(), fi.SplitExpr)
+		x.spec--
+		knownLits[t] = big.NewInt(*split)
+		st.pc = append(st.pc, mk("=", SBool, t, IntLit(*split)))
+	}
 	fr.entry = st.clone()
 	// preconditions
 	for _, r := range fi.Requires {
 		st.assume(x.evalSpec(st, r.Expr))
-	}
-	// free preconditions: assumed here, not demanded from callers
-	for _, r := range fi.Assumes {
-		st.assume(x.evalSpec(st, r.Expr))
-		x.assumed = append(x.assumed, fmt.Sprintf("%s assumes (free precondition) %s", fi.Name(), x.nodeText(r.Expr)))
 	}
 	if fi.ReplayText != nil {
 		x.replayText = x.evalSpec(st.clone(), fi.ReplayText)
@@ -101,10 +121,15 @@ func verifyUnit(p *Prog, fi *FuncInfo) (res *UnitResult) {
 	}
 	// vacuity: the precondition must be satisfiable
 	if len(fi.Requires) > 0 {
-		o := &Obligation{Name: fi.Name() + "#vacuity:requires", Kind: "vacuity", Func: fi.Name(), Goal: tFalse, ex: x, Expect: "sat", Vacuity: true, Pos: p.relPos(fi.Decl)}
+		o := &Obligation{Name: fi.Name() + x.nameSuffix + "#vacuity:requires", Kind: "vacuity", Func: fi.Name(), Goal: tFalse, ex: x, Expect: "sat", Vacuity: true, Pos: p.relPos(fi.Decl)}
 		o.PC = append([]*Term(nil), st.pc...)
 		o.Axioms = x.axioms[:len(x.axioms):len(x.axioms)]
 		x.obls = append(x.obls, o)
+	}
+	// free preconditions: assumed here, not demanded from callers
+	for _, r := range fi.Assumes {
+		st.assume(x.evalSpec(st, r.Expr))
+		x.assumed = append(x.assumed, fmt.Sprintf("%s assumes (free precondition) %s", fi.Name(), x.nodeText(r.Expr)))
 	}
 	if fi.HasMod {
 		x.hasMod = true
